@@ -18,6 +18,16 @@ class BuiltinMixin:
         ln = getattr(node, 'lineno', None)
         self.d.used_builtins.add(name)
         m = getattr(self, 'b_' + name.replace('.', '_'), None)
+        ext = getattr(self.d.contract, 'externals', None) or {}
+        if m is None and name in ext:
+            nres = ext[name]
+            self.d.used_builtins.add('external(uninterpreted, pure): ' + name)
+            ts = [self.to_val(a) for a in args] + [self.to_val(v) for k, v in sorted(kw.items())]
+            def one(k):
+                return SDyn(uf(f'ext_{name}_{k}_{len(ts)}', *([Val] * len(ts)), Val)(*ts))
+            if nres == 1:
+                return one(0)
+            return STuple([one(k) for k in range(nres)], 'tuple')
         if m is None:
             if name in EXC_PARENTS or name in ('Exception',):
                 return SBuiltin('exc!' + name, STuple(args))
@@ -287,6 +297,31 @@ class BuiltinMixin:
                 return args[2]
             raise PyRaise('AttributeError', getattr(node, 'lineno', None), 'no such attribute (symbolic name)')
         raise Unsupported('getattr with symbolic name')
+
+    def b_m_items(self, fr, f, args, kw, node):
+        d = f.self_
+        if isinstance(d, SDictC):
+            return STuple([STuple([lift(k), v]) for k, v in d.d.items()], 'tuple')
+        raise Unsupported('.items() of a symbolic mapping')
+
+    def b_m_keys(self, fr, f, args, kw, node):
+        d = f.self_
+        if isinstance(d, SDictC):
+            return STuple([lift(k) for k in d.d], 'tuple')
+        raise Unsupported('.keys() of a symbolic mapping')
+
+    def b_setattr(self, fr, f, args, kw, node):
+        o, n, v = args
+        sn = z3.simplify(n.t) if isinstance(n, SStr) else None
+        if not isinstance(o, SObj) or sn is None or not z3.is_string_value(sn):
+            raise Unsupported('setattr with symbolic name or non-object')
+        self.heap[o.oid][sn.as_string()] = v
+        self.written.add((o.oid, sn.as_string()))
+        return NONE
+
+    def b_spec_ext(self, fr, f, args, kw, node):
+        n = z3.simplify(args[0].t)
+        return SBuiltin(n.as_string())
 
     def b_iter(self, fr, f, args, kw, node):
         v = args[0]
